@@ -69,7 +69,17 @@ fn feed_chunks(c: &mut Box<dyn Conn>, stream: &[u8], bounds: &[usize]) -> Result
     let mut consumed_total = 0usize;
     let mut problem = None;
     for &end in bounds.iter().chain(std::iter::once(&stream.len())) {
-        if end <= start {
+        if end < start {
+            continue;
+        }
+        if end == start {
+            // an empty receive buffer (a transport read that returned nothing) between two pieces: part of "any way of
+            // cutting the stream into successive receive buffers"; it consumes nothing and yields nothing
+            let (evs, n) = c.recv(&[]).map_err(|p| format!("panic: {}", p.message))?;
+            if n != 0 && problem.is_none() {
+                problem = Some(format!("an empty buffer at offset {} was reported as {} bytes consumed", start, n));
+            }
+            all.extend(evs);
             continue;
         }
         let chunk = &stream[start..end];
